@@ -60,11 +60,11 @@ class struct(_composite_base):
         data = b""
 
         for field in self._descriptor:
-            data += (self._get_padding(len(data), field.type._ALIGNMENT))
+            data += (self._get_padding(len(data), field.alignment))
             data += field.encode_fcn(self, field.type, getattr(self, field.name, None), endianness)
 
-            if field.type._PARTIAL_ALIGNMENT:
-                data += self._get_padding(len(data), field.type._PARTIAL_ALIGNMENT)
+            if field.partial_alignment:
+                data += self._get_padding(len(data), field.partial_alignment)
 
         data += self._get_padding(len(data), self._ALIGNMENT)
 
@@ -78,13 +78,13 @@ class struct(_composite_base):
         start_pos = pos
 
         for field in self._descriptor:
-            pos += self._get_padding_size(pos, field.type._ALIGNMENT)
+            pos += self._get_padding_size(pos, field.alignment)
             try:
                 pos += field.decode_fcn(self, field.name, field.type, data, pos, endianness, len_hints)
             except ProphyError as e:
                 raise ProphyError("{}: {}".format(self.__class__.__name__, e))
-            if field.type._PARTIAL_ALIGNMENT:
-                pos += self._get_padding_size(pos, field.type._PARTIAL_ALIGNMENT)
+            if field.partial_alignment:
+                pos += self._get_padding_size(pos, field.partial_alignment)
 
         pos += self._get_padding_size(pos, self._ALIGNMENT)
 
